@@ -151,6 +151,13 @@ impl E {
             E::Rec(fs) => fs.iter().map(|(_, e)| e).collect(),
         }
     }
+    /// does the expression contain an extension call with the wrong number of arguments?
+    pub fn has_arity_error(&self) -> bool {
+        (match self {
+            E::Call(f, xs) => ext_arity(f) != Some(xs.len()),
+            _ => false,
+        }) || self.children().iter().any(|c| c.has_arity_error())
+    }
     /// `BoolLit && BoolLit` and `BoolLit || BoolLit` are folded when an AST is constructed (documented on
     /// the expression builder); structural comparisons are made modulo this fold.
     pub fn fold_bool_lits(&self) -> E {
